@@ -58,6 +58,7 @@ partial def loop (h : IO.FS.Stream) (ln : Nat) (m : Mode) (r : Report) : IO Repo
       else if line.startsWith "X " then
         let (run', r') := connLine run ln (line.drop 2).toString r
         loop h (ln + 1) (.conn run') r'
+      else if line.startsWith "Y " then loop h (ln + 1) m (connY run ln (line.drop 2).toString r)
       else loop h (ln + 1) m (r.mdiff "parse" s!"line {ln}: unexpected `{line.take 60}`")
     | .frame st =>
       if line = "END" then loop h (ln + 1) .none (frameEnd st ln r)
